@@ -247,10 +247,12 @@ def plan_of(case, data, chunks):
         steps.append({"op": "eval", "src": "(list (guarded (lambda () (%svector-ref uv %d))) (guarded (lambda () (%svector-set! uv %d 0) 'stored)) (%svector-length uv))" % (t, u["len"], t, u["bad_index"] if u["bad_index"] is not None else u["len"], t)})
     elif fam == "uri":
         plus = "#t" if case["plus"] else "#f"
-        steps.append({"op": "eval", "src": "(define s (slurp-chars (open-sim-input \"i\"))) (string-length s)"})
         if case["fault"]:
-            steps.append({"op": "eval", "src": "(guarded (lambda () (string? (uri-decode s %s))))" % plus})
+            # (a corrupted byte may make the stored text invalid UTF-8: reading it then signals an error, which is an allowed outcome)
+            steps.append({"op": "eval", "src": "(define s (guarded (lambda () (slurp-chars (open-sim-input \"i\"))))) (if (string? s) (string-length s) s)"})
+            steps.append({"op": "eval", "src": "(if (string? s) (guarded (lambda () (string? (uri-decode s %s)))) 'skipped)" % plus})
         else:
+            steps.append({"op": "eval", "src": "(define s (slurp-chars (open-sim-input \"i\"))) (string-length s)"})
             steps.append({"op": "eval", "src": "(guarded (lambda () (write-string (uri-encode s %s)) 'ok))" % plus})
             steps.append({"op": "eval", "src": "(guarded (lambda () (let ((d (uri-decode (uri-encode s %s) %s))) (list (string=? d s) (string-length d)))))" % (plus, plus)})
             steps.append({"op": "eval", "src": "(guarded (lambda () (let ((d (uri-decode \"%s\" %s))) (list (string=? d s) (string-length d)))))" % (uri_ref(case), plus)})
